@@ -15,7 +15,7 @@ RULE = ("EVERY listing of length 1..L over a 6-instruction alphabet (0-3 operand
         "spaces, commas, parentheses), blank line, section header, elision line '\\t...', file-format header dropped, DOS (CRLF) line endings, "
         "<sym+off> annotation added/changed/removed (incl. C++-style names with ', ' and '|'), '# comment' added (also on "
         "operand-less instructions), indentation 0..8, raw-byte column 1..7 bytes with different values, byte-continuation "
-        "line inserted; plus EVERY pair of edit kinds at the first two positions and EVERY (global edit, positional edit kind) pair; non-ASCII symbol names; and an environment family: the CLI run with LC_ALL=C / PYTHONUTF8=0 on listings whose labels and comments contain non-ASCII UTF-8 names must report what it reports for ASCII names. Oracle (real code vs real code): the "
+        "line inserted; plus EVERY pair of edit kinds at the first two positions and EVERY (global edit, positional edit kind) pair; non-ASCII symbol names; symbol names, annotations and comments of 1200..5000 characters; listings of 65540 / 70001 instructions in four presentations (bare, a blank line on top, labels every 1000 instructions, no header); and an environment family: the CLI run with LC_ALL=C / PYTHONUTF8=0 on listings whose labels and comments contain non-ASCII UTF-8 names must report what it reports for ASCII names. Oracle (real code vs real code): the "
         "instruction stream and the all-matches result lists of 8 fixed rules are identical for the edited and the "
         "canonical presentation, also under a rule with valid_addr_range and a full-match flag (which installs the optional instruction observer). Non-trivial = every edited listing (each differs textually from the canonical one).")
 ASSUMPTIONS = ["presentation edits keep objdump's line syntax (TAB-separated address / bytes / text); arbitrary text is C08's subject"]
@@ -31,9 +31,10 @@ RULES = [["mov"], [{"mov": ["rax"]}], ["call"], [{"call": ["401030"]}], ["ret"],
 
 CONF2 = {"valid_addr_range": {"min": "401000", "max": "401fff"}, "mnemonics-full-match": True}
 HEADER = ["", "a.out:     file format elf64-x86-64", "", "", "Disassembly of section .text:", ""]
-LABELS = ["f", "main", "foo(int, char)", "a|b", "x::y", "_Z3fooi.cold", "gr\u00f6\u00dfe", "f\u00b71"]
-ANNOTS = ["f", "f+0x10", "foo(int, char)+0x4", "a|b::c,d", "main-0x8"]
-COMMENTS = ["404010 <x+0x8>", "x", "a,b|c::d", "0x10", "404010 <gr\u00f6\u00dfe+0x8>"]
+LONGNAME = "_ZN" + "9templated" * 120 + "E"      # 1200+ characters (mangled C++ / Rust names get this long)
+LABELS = [LONGNAME, "f", "main", "foo(int, char)", "a|b", "x::y", "_Z3fooi.cold", "gr\u00f6\u00dfe", "f\u00b71"]
+ANNOTS = [LONGNAME + "+0x10", "f", "f+0x10", "foo(int, char)+0x4", "a|b::c,d", "main-0x8"]
+COMMENTS = ["404010 <" + LONGNAME * 4 + "+0x8>", "404010 <x+0x8>", "x", "a,b|c::d", "0x10", "404010 <gr\u00f6\u00dfe+0x8>"]
 
 
 def bounds(tier):
@@ -106,8 +107,34 @@ def global_edits():
             ("tail-blank", lambda p: p.before[-1].extend(["", ""])), ("tail-elision", lambda p: p.before[-1].append("\t..."))]
 
 
+def run_longlisting(h, res, known, n):
+    """a listing of n instructions in three presentations (bare; one blank line on top; labels every 1000 instructions):
+    the streams must be identical"""
+    unit = [("mov", ["%rax", "%rbx"]), ("call", ["401030"]), ("ret", []), ("push", ["%rax"])]
+    body = [fmt_line(f"{0x400000 + 4 * i:x}", *unit[i % 4]) for i in range(n)]
+    variants = {
+        "bare": HEADER + ["0000000000400000 <f>:"] + body,
+        "blank_on_top": [""] + HEADER + ["0000000000400000 <f>:"] + body,
+        "labels": HEADER + [x for i, l in enumerate(body) for x in (([f"{0x400000 + 4 * i:016x} <f{i}>:"] if i % 1000 == 0 else []) + [l])],
+        "no_header": body,
+    }
+    mop = h.mop(make_rule_doc(["call", "ret"]))
+    out = {}
+    for name, lines in variants.items():
+        p = h.write(f"c16long_{name}.s", "\n".join(lines) + "\n")
+        res.evaluations += 1
+        res.nontrivial += 1
+        out[name] = (h.match(mop, p, ret="stream"), h.match(mop, p, only_addr=True))
+    for name, v in out.items():
+        if v != out["bare"]:
+            s0, s1 = out["bare"][0], v[0]
+            k = next((i for i, (a, b) in enumerate(zip(s0, s1)) if a != b), min(len(s0), len(s1)))
+            res.fail({"clause": "long-presentation", "family": "longlisting", "variant": name, "n_instructions": n,
+                      "expected": s0[max(0, k - 60):k + 60], "observed": s1[max(0, k - 60):k + 60], "size": n}, known)
+
+
 def shards(tier):
-    return e1.std_shards(tier, 32, 128) + [{"kind": "env"}]
+    return e1.std_shards(tier, 32, 128) + [{"kind": "env"}] + [{"kind": "long", "n": n} for n in ([65540, 70001] if tier == "quick" else [32770, 65540, 70001, 131080])]
 
 
 def run_env(h, res, known):
@@ -151,6 +178,8 @@ _MOPS = {}
 def run_shard(shard, tier, h, res, known):
     if shard.get("kind") == "env":
         return run_env(h, res, known)
+    if shard.get("kind") == "long":
+        return run_longlisting(h, res, known, shard["n"])
     L = bounds(tier)["L_listing_len"]
     listings = [idx for n in range(1, L + 1) for idx in itertools.product(range(len(ALPHA)), repeat=n)]
     mops = [h.mop(make_rule_doc(r)) for r in RULES]
@@ -253,6 +282,11 @@ def controls(h):
 
 
 def replay(case, h):
+    if case.get("family") == "longlisting":
+        r = type("R", (), {"evaluations": 0, "nontrivial": 0, "fails": []})()
+        r.fail = lambda c, k: r.fails.append(c)
+        run_longlisting(h, r, set(), case["n_instructions"])
+        return bool(r.fails), str(r.fails)[:300]
     if case.get("family") == "env":
         r = type("R", (), {"evaluations": 0, "nontrivial": 0, "fails": []})()
         r.fail = lambda c, k: r.fails.append(c)
